@@ -9,6 +9,7 @@ import VaxisModel.Lemmas.Scrollbar
 import VaxisModel.Lemmas.DynList
 import VaxisModel.Lemmas.DynListInv
 import VaxisModel.Lemmas.DynCompose
+import VaxisModel.Model.Window
 
 namespace VaxisModel.Props.C19
 open VaxisModel VaxisModel.Model
@@ -113,6 +114,37 @@ theorem simple_list_rows_in_order (n : Nat) (ops : List Op) (h : Nat) :
       rw [this] at hd
       cases hd
       simp at hk
+
+/-- **C19 × C11 — which `Println` calls draw.**  `List.Draw` calls `win.Println(i, …)` for EVERY item
+    `i` from the offset on; the list model keeps only the rows `i < height`.  By C11's model of
+    `Window.Println` (`Model/Window.lean`) this is exact: a call with a row at or beyond the window
+    height draws nothing, and a call with a row inside the window writes only cells of that row. -/
+theorem simple_list_println_rows (lib : Model.Window.Lib) (rm : Bool) (win : Model.Window.Win)
+    (segs : List (Nat × List Model.Window.Raw)) (row : Int) :
+    (row ≥ win.height → Model.Window.printlnOps lib rm win row segs = []) ∧
+    (∀ op ∈ Model.Window.printlnOps lib rm win row segs, op.row = row ∧ row < win.height) := by
+  constructor
+  · intro h; simp [Model.Window.printlnOps, h]
+  · intro op hop
+    unfold Model.Window.printlnOps at hop
+    split at hop
+    · cases hop
+    · rename_i hlt
+      refine ⟨?_, by omega⟩
+      have key : ∀ (l : List Model.Window.Styled) (col : Int), ∀ op ∈ Model.Window.lnGo lib rm win.width row l col, op.row = row := by
+        intro l
+        induction l with
+        | nil => intro col op h; cases h
+        | cons a rest ih =>
+          intro col op h
+          obtain ⟨st, ch0⟩ := a
+          simp only [Model.Window.lnGo] at h
+          split at h
+          · cases h
+          · rcases List.mem_cons.mp h with h | h
+            · rw [h]
+            · exact ih _ op h
+      exact key _ _ op hop
 
 /-- Non-vacuity: a concrete history on three items. -/
 example : (match run gen (new 3) [.down, .down, .draw 2, .setItems 1, .draw 2, .«end»] with
